@@ -1412,6 +1412,15 @@ func (c *Ctx) c10Paths() {
 	if byName == nil || byHash == nil || mboxT == nil {
 		return
 	}
+	// a nested field is reported under the name of the mbox anchor that resolves to it
+	anchorName := func(f *types.Var) string {
+		for _, nm := range []string{"path", "indexPath", "dirName"} {
+			if a := p.OptField(fileRel, "mbox", nm); a != nil && eng.SameField(a, f) {
+				return nm
+			}
+		}
+		return f.Name()
+	}
 	fields := func(fn *ssa.Function, hash ssa.Value) map[string]string {
 		out := map[string]string{}
 		eng.EachInstr(fn, func(in ssa.Instruction) {
@@ -1426,6 +1435,31 @@ func (c *Ctx) c10Paths() {
 			if al, ok := fa.X.(*ssa.Alloc); ok {
 				if pt, ok := al.Type().(*types.Pointer); ok && types.Identical(pt.Elem(), mboxT) {
 					out[eng.FieldOfAddr(fa).Name()] = exprString(st.Val, hash, 0)
+					// a carrier record set as a whole (idx: mboxIndex{path: …}): its fields, under
+					// the name of the anchor they resolve to
+					if ld, isLd := st.Val.(*ssa.UnOp); isLd {
+						if cal, isAl := ld.X.(*ssa.Alloc); isAl && cal.Referrers() != nil {
+							for _, cr := range *cal.Referrers() {
+								cfa, isFA := cr.(*ssa.FieldAddr)
+								if !isFA || cfa.Referrers() == nil {
+									continue
+								}
+								for _, cs := range *cfa.Referrers() {
+									if cst, isSt := cs.(*ssa.Store); isSt && cst.Addr == ssa.Value(cfa) {
+										out[anchorName(eng.FieldOfAddr(cfa))] = exprString(cst.Val, hash, 0)
+									}
+								}
+							}
+						}
+					}
+				}
+			}
+			// …or field by field (&(&mb.idx).path)
+			if ofa, ok := fa.X.(*ssa.FieldAddr); ok {
+				if al, ok := ofa.X.(*ssa.Alloc); ok {
+					if pt, ok := al.Type().(*types.Pointer); ok && types.Identical(pt.Elem(), mboxT) {
+						out[anchorName(eng.FieldOfAddr(fa))] = exprString(st.Val, hash, 0)
+					}
 				}
 			}
 		})
